@@ -45,19 +45,21 @@ UNTYPED_DEFAULTS = ["None", "0", "-1", "1.5", "'s'", "b'b'", "True", "()", "(1, 
                     "{'k': 1}", "{1, 2}", "~1", "print", "len", "frozenset()", "lambda: 0", "1 + 2", "10 ** 3",
                     "(1, [2, (3,)])", "-1.5", "1j", "...", "not True", "'%s' % 1"]
 
-KEYWORDISH = ["type", "id", "list", "input", "format", "match", "case", "_", "__x", "self_", "cls_", "async_"]
+KEYWORDISH = ["type", "id", "list", "input", "format", "match", "case", "_", "x__", "self_", "cls_", "async_"]
 
 
 class Mod:
     """One module under construction."""
 
-    def __init__(self, rng: random.Random, modname: str, relbase: str, avoid: frozenset[str], future: bool):
+    def __init__(self, rng: random.Random, modname: str, relbase: str, avoid: frozenset[str], future: bool,
+                 profile: str = "full"):
         self.rng = rng
+        self.profile = profile          # "full" | "inspect" (the constructs --inspect-mode handles)
         self.modname = modname
         self.relbase = relbase          # "." or ".." — how to reach the package that holds base.py
         self.avoid = avoid
         self.future = future
-        self.style = rng.choice(["from", "from", "qual", "alias"])
+        self.style = rng.choice(["from", "from", "qual", "alias"]) if profile == "full" else "from"
         self.tprefix = {"from": "", "qual": "typing.", "alias": "t."}[self.style]
         self.cprefix = {"from": "", "qual": "collections.abc.", "alias": "cabc."}[self.style]
         self.typing_names: set[str] = set()
@@ -66,6 +68,7 @@ class Mod:
         self.body: list[str] = []
         self.classes: list[str] = []       # local/imported class names usable in annotations
         self.public: list[str] = []        # top-level public names (candidates for __all__)
+        self.leaf: set[str] = set()        # public names nothing else refers to (may be left out of __all__)
         self.features: list[str] = []
         self.n = 0
 
@@ -97,6 +100,11 @@ class Mod:
     def ty(self) -> tuple[str, list[str], str]:
         """A type spelling, literal defaults that inhabit it, an expression to return."""
         r = self.rng
+        if self.profile == "inspect":
+            if self.classes and r.random() < 0.2:
+                return r.choice(self.classes), [], ""
+            s, d, v = r.choice(POOL[:6])
+            return s, d, v
         if self.classes and r.random() < 0.2:
             c = r.choice(self.classes)
             if r.random() < 0.5:
@@ -115,7 +123,7 @@ class Mod:
         """A parameter list obeying Python's grammar.  annot ∈ full | none | partial.
         Returns (text, names)."""
         r = self.rng
-        npo = r.choice([0, 0, 0, 1, 2])
+        npo = r.choice([0, 0, 0, 1, 2]) if self.profile == "full" else 0
         npos = r.choice([0, 1, 1, 2, 3])
         star = r.random() < 0.3
         nkw = r.choice([0, 0, 1, 2, 3])
@@ -138,13 +146,13 @@ class Mod:
                 t, ds, _ = self.ty()
                 has = can_default and ds and (force_default or r.random() < 0.4)
                 if kind == "star":
-                    t = r.choice(["int", "str", self.spell("{T}Any"), "object"])
+                    t = r.choice(["int", "str", self.spell("{T}Any"), "object"] if self.profile == "full" else ["int", "str", "object"])
                     return f"*{n}: {t}", False
                 if kind == "star2":
-                    t = r.choice(["int", "str", self.spell("{T}Any"), "object"])
+                    t = r.choice(["int", "str", self.spell("{T}Any"), "object"] if self.profile == "full" else ["int", "str", "object"])
                     return f"**{n}: {t}", False
                 if force_default and not ds:
-                    t, ds = t + " | None", ["None"]
+                    t, ds = (t + " | None", ["None"]) if self.profile == "full" else ("int", ["0"])
                     has = True
                 return (f"{n}: {t} = {r.choice(ds)}" if has else f"{n}: {t}"), bool(has)
             if kind == "star":
@@ -152,7 +160,8 @@ class Mod:
             if kind == "star2":
                 return f"**{n}", False
             has = can_default and (force_default or r.random() < 0.4)
-            return (f"{n}={r.choice(UNTYPED_DEFAULTS)}" if has else n), has
+            pool = UNTYPED_DEFAULTS if self.profile == "full" else [d for d in UNTYPED_DEFAULTS if d not in ("print", "len")]
+            return (f"{n}={r.choice(pool)}" if has else n), has
 
         items: list[str] = []
         seen_default = False
@@ -162,7 +171,7 @@ class Mod:
             s, d = one(True, seen_default, "pos")
             seen_default = seen_default or d
             items.append(s)
-        if npo or (first is not None and npos + npo > 0 and r.random() < 0.05):
+        if npo or (first is not None and npos + npo > 0 and r.random() < 0.05 and self.profile == "full"):
             items.append("/")
         for i in range(npos):
             s, d = one(True, seen_default, "pos")
@@ -184,7 +193,7 @@ class Mod:
         annot = r.choice(["full", "full", "none", "partial"])
         ps, names = self.params(first, annot)
         if is_async is None:
-            is_async = r.random() < 0.15
+            is_async = r.random() < 0.15 and self.profile == "full"
         ret = ""
         body = "pass"
         if annot != "none" and r.random() < 0.85:
@@ -198,7 +207,7 @@ class Mod:
                 ret, body = " -> None", r.choice(["pass", "return None", "return"])
         elif annot == "none":
             body = r.choice(["pass", "return None", f"return {names[0]}" if names else "return 1",
-                             "raise NotImplementedError", "yield 1", "x = yield", "return (yield 1)" if False else "pass"])
+                             "raise NotImplementedError", "yield 1", "x = yield", "pass"])
             if is_async and "yield" in body:
                 body = "pass"
         if stub_body:
@@ -216,12 +225,21 @@ class Mod:
             n = self.fresh("func")
             self.func(n)
             self.public.append(n)
+            self.leaf.add(n)
         if self.rng.random() < 0.3:
             n = self.fresh("_private_func")
             self.func(n)
 
     def f_variables(self) -> None:
         r = self.rng
+        if self.profile == "inspect":
+            for _ in range(r.randint(1, 3)):
+                n = self.fresh("var")
+                t, val = r.choice([("int", "3"), ("str", "'s'"), ("float", "1.5"), ("bool", "True"), ("bytes", "b'x'")])
+                self.emit(f"{n}: {t} = {val}" if r.random() < 0.5 else f"{n} = {val}")
+                self.public.append(n)
+                self.leaf.add(n)
+            return
         for _ in range(r.randint(1, 4)):
             n = self.fresh("VAR" if r.random() < 0.5 else "var")
             k = r.random()
@@ -231,7 +249,7 @@ class Mod:
                 self.emit(f"{n}: {t} = {val}")
             elif k < 0.6:
                 self.emit(f"{n} = {r.choice(['1', chr(39) + 's' + chr(39), '1.5', 'True', 'None', '[1]', 'b' + chr(39) + chr(39), '-2', '(1, 2)'])}")
-            elif k < 0.7:
+            elif k < 0.7 and self.style == "from":      # bare `typing.Final` (qualified) is a known class: witness final_qualified
                 self.emit(f"{n}: {self.T('Final')} = {r.choice(['3', chr(39) + 'f' + chr(39), '2.5', 'True', '-1'])}")
             elif k < 0.8 and val is not None:
                 self.emit(f"{n}: {self.T('Final')}[{t}] = {val}")
@@ -242,13 +260,18 @@ class Mod:
             else:
                 self.emit(f"{n}: {t}" if False else f"{n}: int = 0")
             self.public.append(n)
+            self.leaf.add(n)
         if r.random() < 0.3:
             self.emit(f"{self.fresh('_hidden')} = 1")
 
-    def method_block(self, cname: str, indent: str = "    ", abstract: bool = False) -> None:
+    def method_block(self, cname: str, indent: str = "    ", abstract: bool = False, no_init: bool = False) -> None:
         r = self.rng
         kinds = r.sample(["plain", "plain", "static", "classm", "prop", "proprw", "dunder", "init", "async", "private",
                           "nested"], r.randint(1, 5))
+        if no_init:
+            kinds = [k for k in kinds if k not in ("init", "nested")] or ["plain"]
+        if self.profile == "inspect":
+            kinds = [k for k in kinds if k in ("plain", "static", "classm", "init", "private")] or ["plain"]
         for k in kinds:
             if k == "plain":
                 self.func(self.fresh("meth"), indent, "self",
@@ -322,10 +345,15 @@ class Mod:
             bases.append(f"{self.T('Generic')}[{tv}]")
         elif k < 0.5:
             bases.append("object")
+        if self.profile == "inspect":
+            bases = [b for b in bases if b in self.classes]
+            abstract = False
         self.emit(f"class {n}{'(' + ', '.join(bases) + ')' if bases else ''}:")
         if r.random() < 0.25:
             self.emit(f'    """Class {n}."""')
-        nattr = r.randint(0, 3)
+        nattr = r.randint(0, 3) if self.profile == "full" else 0
+        if self.profile == "inspect" and r.random() < 0.5:
+            self.emit(f"    {self.fresh('attr')} = {r.choice(['0', chr(39) + 'x' + chr(39), '1.0'])}")
         for _ in range(nattr):
             t, ds, _ = self.ty()
             a = self.fresh("attr")
@@ -341,8 +369,7 @@ class Mod:
         if abstract:
             self.extra_imports.append("import abc")
         self.method_block(n, abstract=abstract)
-        if not abstract:
-            self.classes.append(n)
+        self.classes.append(n)
         self.public.append(n)
 
     def need_typevar(self) -> str:
@@ -403,7 +430,7 @@ class Mod:
             else:
                 self.emit(f"    {a}: {t}")
         if r.random() < 0.5:
-            self.method_block(n)
+            self.method_block(n, no_init=True)
         self.classes.append(n)
         self.public.append(n)
 
@@ -496,8 +523,10 @@ class Mod:
         if r.random() < 0.6:
             self.emit(f"@{ov}", f"def {n}(x: int) -> int: ...", f"@{ov}", f"def {n}(x: str, y: int = ...) -> str: ...")
             if r.random() < 0.4:
-                self.emit(f"@{ov}", f"def {n}(x: bytes, *, flag: bool) -> bytes: ...")
-            self.emit(f"def {n}(x, y=0, *, flag=False):", "    return x")
+                self.emit(f"@{ov}", f"def {n}(x: bytes, y: int = ..., *, flag: bool) -> bytes: ...")
+                self.emit(f"def {n}(x, y=0, *, flag=False):", "    return x")
+            else:
+                self.emit(f"def {n}(x, y=0):", "    return x")
             self.public.append(n)
         else:
             c = self.fresh("Over")
@@ -541,8 +570,10 @@ class Mod:
             self.emit(f"{n} = {r.choice(['list[int]', 'dict[str, int]', 'tuple[int, ...]'])}")
         elif k == "union":
             self.emit(f"{n} = int | None" if r.random() < 0.5 else f"{n} = {self.T('Union')}[int, str]")
+        elif k == "explicit" and self.style != "from":     # qualified typing.TypeAlias is a known class (witness typealias_qualified)
+            self.emit(f"{n} = dict[str, int]")
         elif k == "explicit":
-            self.emit(f"{n}: {self.T('TypeAlias')} = {r.choice(['dict[str, int]', 'list[int] | None', chr(34) + 'list[int]' + chr(34)])}")
+            self.emit(f"{n}: {self.T('TypeAlias')} = {r.choice(['dict[str, int]', 'list[int] | None'])}")
         elif k == "newtype":
             self.emit(f"{n} = {self.T('NewType')}('{n}', int)")
         elif k == "funcalias":
@@ -591,7 +622,7 @@ class Mod:
     def f_relative(self) -> None:
         r = self.rng
         rb = self.relbase
-        k = r.choice(["from", "module", "alias", "base", "helper"])
+        k = r.choice(["from", "module", "alias", "base", "helper"] if self.profile == "full" else ["from", "base"])
         n = self.fresh("rel")
         if k == "from":
             self.extra_imports.append(f"from {rb}base import Base")
@@ -623,10 +654,12 @@ class Mod:
     FEATURES = ["functions", "functions", "variables", "class", "class", "generic_func", "dataclass", "enum",
                 "namedtuple", "typeddict", "overload", "pep695", "alias", "conditional", "relative", "decorated"]
 
+    INSPECT_FEATURES = ["functions", "functions", "variables", "class", "class", "relative"]
+
     def build(self) -> str:
         r = self.rng
         k = r.randint(3, 7)
-        feats = [r.choice(self.FEATURES) for _ in range(k)]
+        feats = [r.choice(self.FEATURES if self.profile == "full" else self.INSPECT_FEATURES) for _ in range(k)]
         feats = [f for f in feats if f not in self.avoid]
         for f in feats:
             getattr(self, "f_" + f)()
@@ -657,7 +690,7 @@ class Mod:
         allstmt: list[str] = []
         self.all: list[str] | None = None
         if "dunder_all" not in self.avoid and self.public and r.random() < 0.4:
-            pub = [p for p in self.public if r.random() < 0.7] or self.public[:1]
+            pub = [p for p in self.public if p not in self.leaf or r.random() < 0.6] or self.public[:1]
             self.all = pub
             allstmt = ["__all__ = " + repr(pub)]
         if r.random() < 0.5:
@@ -689,14 +722,33 @@ def helper(x: int, /, *, scale: float = 1.0) -> int:
 '''
 
 
-def gen_package(rng: random.Random, pkg: str, nmods: int, avoid: frozenset[str] = frozenset()) -> tuple[dict[str, str], dict[str, dict]]:
+BASE_INSPECT_PY = '''"""Shared definitions imported relatively by the sibling modules."""
+
+
+class Base:
+    def describe(self, prefix: str = "") -> str:
+        return prefix
+
+
+class Mixin:
+    def mix(self) -> None:
+        pass
+
+
+def helper(x: int, *, scale: float = 1.0) -> int:
+    return x
+'''
+
+
+def gen_package(rng: random.Random, pkg: str, nmods: int, avoid: frozenset[str] = frozenset(),
+                profile: str = "full") -> tuple[dict[str, str], dict[str, dict]]:
     """files: relative path -> source; meta: dotted module name -> {features, all}."""
     files: dict[str, str] = {}
     meta: dict[str, dict] = {}
     init = rng.choice(["", "from .base import Base as Base\n", "from . import base\n",
                        "from .base import Base, helper\n__all__ = ['Base', 'helper']\n"])
     files[f"{pkg}/__init__.py"] = init
-    files[f"{pkg}/base.py"] = BASE_PY
+    files[f"{pkg}/base.py"] = BASE_PY if profile == "full" else BASE_INSPECT_PY
     files[f"{pkg}/sub/__init__.py"] = ""
     meta[pkg] = {"features": ["init"], "all": None}
     meta[f"{pkg}.base"] = {"features": ["base"], "all": None}
@@ -704,7 +756,7 @@ def gen_package(rng: random.Random, pkg: str, nmods: int, avoid: frozenset[str] 
     for i in range(nmods):
         deep = i == nmods - 1 and nmods > 1
         name = f"{pkg}.sub.deep" if deep else f"{pkg}.m{i}"
-        m = Mod(rng, name, ".." if deep else ".", avoid, future=rng.random() < 0.35)
+        m = Mod(rng, name, ".." if deep else ".", avoid, future=rng.random() < 0.35, profile=profile)
         src = m.build()
         files[name.replace(".", "/") + ".py"] = src
         meta[name] = {"features": m.features, "all": m.all, "future": m.future, "style": m.style}
